@@ -23,6 +23,49 @@ GSV = "roughenough::request::get_supported_version"
 RFC = "roughenough::request::nonce_from_rfc_request"
 
 
+def functional_scan(ctx, W, fn, ev, wire_w):
+    """`entries.find_map(|e| SUPPORTED.iter().find(|v| v.wire_bytes() == e).copied())`: the version returned is an element of SUPPORTED_VERSIONS
+    whose wire bytes equal the entry.  Returns the number of such forms recognised (and records the two checks)."""
+    P = ctx.prog
+    r = W.expand(ev.ret())
+    alts = r[1] if isinstance(r, tuple) and r and r[0] == "phi" else (r,)
+    n = 0
+    for a in alts:
+        a = values.strip_payload(a)
+        if not (is_call(a) and callee_name(a[1]) == "find_map" and isinstance(a[2][1], tuple) and a[2][1][0] == "closure" and a[2][1][1] in P.fns):
+            continue
+        c1 = a[2][1][1]
+        r1 = values.strip_payload(W.ev(c1).ret())
+        for _ in range(3):
+            if is_call(r1) and callee_name(r1[1]) in ("copied", "cloned") and r1[2]:
+                r1 = values.strip_payload(r1[2][0])
+        if not (is_call(r1) and callee_name(r1[1]) == "find" and isinstance(r1[2][1], tuple) and r1[2][1][0] == "closure" and r1[2][1][1] in P.fns):
+            continue
+        n += 1
+        cont = W.ev(c1).resolve(W.ev(c1).__class__.__name__ and r1[2][0]) if False else r1[2][0]
+        e1 = W.ev(c1)
+        cont = values.strip_payload(cont)
+        if isinstance(cont, tuple) and cont and cont[0] == "obj":
+            init = e1.obj_init(cont[2])
+            cont = init[0][1] if len(init) == 1 else cont
+        oke = values.contains(cont, lambda s: isinstance(s, tuple) and s and s[0] == "arr") or values.contains(W.expand(cont), lambda s: isinstance(s, tuple) and s and s[0] == "arr")
+        ctx.check("version-scan", "match-is-supported-element", oke, "the version returned is an element of SUPPORTED_VERSIONS (find over its iterator)",
+                  "the version is searched in %s" % fmt(cont), ctx.loc(fn))
+        c2 = r1[2][1][1]
+        r2 = W.ev(c2).ret()
+        okr = False
+        if is_call(r2) and callee_name(r2[1]) == "eq" and len(r2[2]) == 2:
+            sides = list(r2[2])
+            wb = [x for x in sides if is_call(x, "Version::wire_bytes") and x[2][0] == ("param", c2, 2)]
+            other = [x for x in sides if not is_call(x, "Version::wire_bytes")]
+            # the other side is the captured entry: closure env field 0 bound to the outer closure's item parameter
+            cap = r1[2][1][2]
+            okr = bool(wb) and len(other) == 1 and other[0] == ("field", ("param", c2, 1), "0") and cap == (("param", c1, 2),)
+        ctx.check("version-scan", "match-is-wire-equality", okr, "an element is returned only where its wire_bytes() equal the request's entry",
+                  "the search predicate is %s" % fmt(r2), ctx.loc(fn))
+    return n
+
+
 def run(ctx):
     W = World(ctx)
     P = ctx.prog
@@ -40,7 +83,18 @@ def run(ctx):
     takes = [(bb, ev.call_args(bb)) for bb, t in fn.calls() if callee_name(t["fn"].get("path", "")) == "take"]
     wire_w = len(sp["versions"]["RfcDraft13"]["wire"])
     okc = len(chunks) == 1 and chunks[0][1][1] == ("int", wire_w)
-    src = tagpath(W, chunks[0][1][0]) if chunks else None
+    csrc = W.expand(chunks[0][1][0]) if chunks else None
+    prefix_limit = None
+    if isinstance(csrc, tuple) and csrc and csrc[0] == "field" and csrc[2] == "0" and is_call(csrc[1]) and callee_name(csrc[1][1]) == "split_at":
+        # `ver.split_at(min(ver.len(), k)).0` is the first k bytes of the VER value
+        mid = W.expand(csrc[1][2][1])
+        if is_call(mid) and callee_name(mid[1]) == "min":
+            ks = [a[1] for a in mid[2] if isinstance(a, tuple) and a[0] == "int"]
+            ls = [a for a in mid[2] if isinstance(a, tuple) and a[0] == "len"]
+            if len(ks) == 1 and len(ls) == 1 and values.strip_payload(W.expand(ls[0][1])) == values.strip_payload(W.expand(csrc[1][2][0])):
+                prefix_limit = ks[0]
+                csrc = csrc[1][2][0]
+    src = tagpath(W, csrc) if chunks else None
     okc = okc and src is not None and src[1] == ("VER",) and src[0] == ("param", GSV, 1)
     ctx.check("version-scan", "chunk-width-and-source", okc, "the VER value is split into %d-byte entries" % wire_w,
               "version scan splits %s into chunks of %s" % (fmt(chunks[0][1][0]) if chunks else "?", fmt(chunks[0][1][1]) if chunks else "?"), ctx.loc(fn))
@@ -49,6 +103,9 @@ def run(ctx):
         okt = lim[0] == "int" and lim[1] >= 4 and is_call(takes[0][1][0]) and callee_name(takes[0][1][0][1]) in ("chunks", "chunks_exact")
         ctx.check("version-scan", "examines-first-four", okt, "at least the first four entries are examined (limit %s)" % fmt(lim),
                   "only the first %s version entries are examined" % fmt(lim), fn.loc(takes[0][0]))
+    elif prefix_limit is not None:
+        ctx.check("version-scan", "examines-first-four", prefix_limit >= 4 * wire_w, "the first %d bytes (>= four entries) are examined" % prefix_limit,
+                  "only the first %d bytes of the version list are examined" % prefix_limit, ctx.loc(fn))
     else:
         ctx.ok("version-scan", "examines-first-four", "no limit on the number of entries examined", ctx.loc(fn))
     # returns Some(x) only under wire_bytes(x) == chunk
@@ -75,7 +132,10 @@ def run(ctx):
         ie = iter_elem(W, x)
         oke = ie is not None and (ie["container"][0] == "arr" or values.contains(ie["container"], lambda s: s and s[0] == "arr"))
         ctx.check("version-scan", "match-is-supported-element", oke, "the version returned is an element of SUPPORTED_VERSIONS", "returned version is %s" % fmt(x), fn.loc(bb))
-    ctx.floor("version-scan", len(somes), 1, "Some(..) returns in get_supported_version")
+    nfun = 0
+    if not somes:
+        nfun = functional_scan(ctx, W, fn, ev, wire_w)
+    ctx.floor("version-scan", len(somes) + nfun, 1, "Some(..) returns in get_supported_version")
 
     # ------------------------------------------------------------------ gate
     rf = ctx.fn(RFC)
